@@ -35,12 +35,12 @@ ASSUMPTIONS = ["event filters in the configurations are stateless and determinis
 
 UNDEF = edzed.UNDEF
 V = [0, False, 0.0, 1, True, 1.0, 2, None, (), (1,), 'a', [1]]
-FILTERS = ['none', 'pass', 'edit', 'reject', 'mut']
+FILTERS = ['none', 'pass', 'edit', 'reject', 'mut', 'empty', 'strip']
 
 
 def configs(tier):
     out = []
-    for sender in ('sb', 'input', 'counter'):
+    for sender in ('sb', 'input', 'counter', 'valuepoll'):
         for k in range(4):
             for m in range(4):
                 for style in ('tuple', 'list', 'single'):
@@ -70,7 +70,7 @@ def configs(tier):
     return out
 
 
-SSENDERS = ('sb', 'input', 'counter')      # sequential senders (have on_every_output)
+SSENDERS = ('sb', 'input', 'counter', 'valuepoll')      # sequential senders (have on_every_output)
 
 
 def filt_kind(cfg, idx):
@@ -94,12 +94,18 @@ def make_filter(kind):
         return edzed.DataEdit.add(x=1)
     if kind == 'reject':
         return lambda data: False
+    if kind == 'empty':
+        return lambda data: {}          # a mapping (even an empty one) replaces the data
+    if kind == 'strip':
+        return edzed.DataEdit.permit()
     return _mut
 
 
 def apply_ref(kind, data):
     if kind == 'reject':
         return None
+    if kind in ('empty', 'strip'):
+        return {}
     data = dict(data)
     if kind == 'edit':
         data['x'] = 1
@@ -190,6 +196,18 @@ def run_history(cfg, hist):
                 kw['on_every_output'] = on_every
             blk = edzed.Input('snd', initdef=first, **kw)
             ext = edzed.ExtEvent(blk, 'put')
+        elif sender == 'valuepoll':
+            # every poll is an output assignment; the polled function replays the history
+            if on_every is not None:
+                kw['on_every_output'] = on_every
+            polled = {'n': 0}
+
+            def poll():
+                i = polled['n']
+                polled['n'] += 1
+                return copy.copy(V[hist[i]]) if i < len(hist) else UNDEF
+            blk = edzed.ValuePoll('snd', func=poll, interval=1, init_timeout=5, **kw)
+            ext = None
         elif sender == 'counter':
             # without a modulus a Counter's 'put' assigns any value
             if on_every is not None:
@@ -227,6 +245,11 @@ def run_history(cfg, hist):
                 if pos == 0:
                     got_sync = got = deliveries(0)
                     n0 = 0
+                elif sender == 'valuepoll':
+                    # the next poll happens one interval later
+                    await sim.loop.sleep_until_us(pos * 1_000_000 + 1)
+                    await sim.loop.idle()
+                    got_sync = got = deliveries(n0)
                 else:
                     try:
                         ext.send(vi if sender == 'func' else v)
